@@ -398,11 +398,13 @@ pub fn check<P: Prop>(tier: Tier, seed: u64) -> Report {
         let per = (cases as usize + shards - 1) / shards;
         let stop = Arc::new(AtomicBool::new(false));
         let fails: Arc<Mutex<Vec<(usize, P::Case, String)>>> = Arc::new(Mutex::new(vec![]));
+        let firsts: Arc<Mutex<Vec<(usize, P::Case, String)>>> = Arc::new(Mutex::new(vec![]));
         let all_stats: Arc<Mutex<Vec<Stats>>> = Arc::new(Mutex::new(vec![]));
         std::thread::scope(|s| {
             for sh in 0..shards {
                 let stop = stop.clone();
                 let fails = fails.clone();
+                let firsts = firsts.clone();
                 let all_stats = all_stats.clone();
                 let open_keys = &open_keys;
                 let ctx = &ctx;
@@ -446,6 +448,7 @@ pub fn check<P: Prop>(tier: Tier, seed: u64) -> Report {
                                     stats.lock().unwrap().record(&case, &out, None);
                                     failed.store(true, Ordering::SeqCst);
                                     stop.store(true, Ordering::SeqCst);
+                                    firsts.lock().unwrap().push((sh, case.clone(), m.clone()));
                                     Err(TestCaseError::fail(m.clone()))
                                 }
                             }
@@ -467,9 +470,16 @@ pub fn check<P: Prop>(tier: Tier, seed: u64) -> Report {
         fs.sort_by_key(|f| (serde_json::to_string(&f.1).map(|s| s.len()).unwrap_or(0), f.0));
         if let Some((sh, case, _)) = fs.into_iter().next() {
             // re-run the minimal case to get its own message
-            let msg = match run_guarded::<P>(&case, &Ctx { tier, seed, replay: true }) {
-                Outcome::Fail(m) => m,
-                other => format!("(minimal case did not fail again on re-run: {:?}; subject is non-deterministic)", other),
+            // re-run the minimal case to get its own message; a non-deterministic subject may pass now: then report the
+            // first failing case of that shard (unshrunk) with the message it produced
+            let mut msg = None;
+            for _ in 0..P::replay_repeats().max(1) { if let Outcome::Fail(m) = run_guarded::<P>(&case, &Ctx { tier, seed, replay: true }) { msg = Some(m); break } }
+            let (case, msg) = match msg {
+                Some(m) => (case, m),
+                None => match std::mem::take(&mut *firsts.lock().unwrap()).into_iter().find(|f| f.0 == sh) {
+                    Some((_, c0, m0)) => (c0, format!("{m0}  [reported unshrunk: the shrunk case did not fail again, the subject is non-deterministic]")),
+                    None => (case, "(failure did not reproduce on re-run; non-deterministic subject)".to_string()),
+                },
             };
             let p = write_replay::<P>(&case, &msg, &format!("generated shard {sh} seed {seed}"));
             violation = Some((p, msg));
